@@ -25,6 +25,7 @@ pub mod semver {
         }
     }
     impl PartialOrd for Version { #[verifier::external_body] fn partial_cmp(&self, o: &Version) -> (r: Option<core::cmp::Ordering>) { unimplemented!() } }
+    impl core::fmt::Display for Version { #[verifier::external_body] fn fmt(&self, f: &mut core::fmt::Formatter<'_>) -> core::fmt::Result { unimplemented!() } }
     pub struct SemverError { pub k: u8 }
     impl core::fmt::Debug for SemverError { #[verifier::external_body] fn fmt(&self, f: &mut core::fmt::Formatter<'_>) -> core::fmt::Result { unimplemented!() } }
     pub type Error = SemverError;
